@@ -13,6 +13,7 @@ Open Scope list_scope.
 Open Scope string_scope.
 
 (* ---- facts ---- *)
+
 Record pos4 := mkP4 { q_sl : nat; q_sc : nat; q_el : nat; q_ec : nat }.
 
 Inductive bevent :=
@@ -211,7 +212,7 @@ Definition enter_method_call (st : fstate) (callee target : string) (target_is_c
   let tt4 := if is_chain_call tt3 then parse_target_type st (hd "" (split "." tt3)) else tt3 in
   let c := mkCall pkg ctype tt4 callee
                   (if has_args then map (fun a => mkProp "" a) args else [])
-                  (mkPos (q_sl p) (q_sc p) (q_el p) (q_sc p + String.length callee)) in
+                  (mkPos (q_sl p) (q_sc p) (q_el p) (q_sc p + rune_count callee)) in
   add_call_to_current st c.
 
 (* isPlainName: not empty and none of the bytes listed below (brackets, punctuation, operators, quotes, blank) *)
@@ -232,7 +233,7 @@ Definition enter_creator (st : fstate) (var : string) (created : list string) (p
                else set_tables st (s_mapFields st) (mput (s_localVars st) var name) (s_formals st) in
     let full := fst (warp_target_full_type st1 name) in
     let c := mkCall (remove_target full) "CreatorClass" name "" []
-                    (mkPos (q_sl p) (q_sc p) (q_el p) (q_ec p + String.length name)) in
+                    (mkPos (q_sl p) (q_sc p) (q_el p) (q_ec p + rune_count name)) in
     add_call_to_current st1 c
   end.
 
@@ -241,7 +242,7 @@ Definition enter_mref (st : fstate) (text0 ident : string) (p : pos4) : fstate :
   let tt := parse_target_type st text0 in
   let full := fst (warp_target_full_type st tt) in
   add_call_to_current st (mkCall (remove_target full) "lambda" tt ident []
-                                 (mkPos (q_sl p) (q_sc p) (q_el p) (q_ec p + String.length text0))).
+                                 (mkPos (q_sl p) (q_sc p) (q_el p) (q_ec p + rune_count text0))).
 
 Definition body_event (st : fstate) (e : bevent) : fstate :=
   match e with
@@ -289,7 +290,7 @@ Definition member_step (st0 : fstate) (m : jmember) : fstate :=
                  set_fields s1 fs mf
                    (add_node_call (s_node s1)
                       (mkCall (remove_target target) "field" (m_ident0 m) "" []
-                              (mkPos (q_sl d) (q_sc d) (q_el d) (q_ec d + String.length target)))))
+                              (mkPos (q_sl d) (q_sc d) (q_el d) (q_ec d + rune_count target)))))
               (m_names m) st in
     fold_left body_event (m_events m) st'
   else
@@ -299,7 +300,7 @@ Definition member_step (st0 : fstate) (m : jmember) : fstate :=
     let d := m_decl m in
     let f := mkFunc (m_name m) "" (if m_has_param_list m then map (fun p => mkProp (fst p) (snd p)) (m_params m) else [])
                     [] (s_override st) (f_annots (s_method st)) true false []
-                    (mkPos (q_sl d) (q_sc d) (q_el d) (q_ec d + String.length (m_name m))) in
+                    (mkPos (q_sl d) (q_sc d) (q_el d) (q_ec d + rune_count (m_name m))) in
     let st1 := if m_has_param_list m then record_params st (m_params m) else st in
     let st2 := update_method_decl st1 f (m_has_param_list m) in
     let st3 := fold_left body_event (m_events m) st2 in
@@ -310,7 +311,7 @@ Definition member_step (st0 : fstate) (m : jmember) : fstate :=
     let i := m_ident m in let d := m_decl m in
     let f := mkFunc (m_name m) (m_ret m) (if m_has_param_list m then map (fun p => mkProp (fst p) (snd p)) (m_params m) else [])
                     [] (s_override st) annots false false []
-                    (mkPos (q_sl i) (q_sc i) (q_el d) (q_sc i + String.length (m_name m))) in
+                    (mkPos (q_sl i) (q_sc i) (q_el d) (q_sc i + rune_count (m_name m))) in
     let st1 := if m_has_param_list m then record_params st (m_params m) else st in
     let st2 := update_method_decl st1 f (m_has_param_list m) in
     let st3 := fold_left body_event (m_events m) st2 in
@@ -321,7 +322,7 @@ Definition member_step (st0 : fstate) (m : jmember) : fstate :=
     let i := m_ident m in let d := m_decl m in
     let f := mkFunc (m_name m) (m_ret m) (if m_has_param_list m then map (fun p => mkProp (fst p) (snd p)) (m_params m) else [])
                     [] false [] false false []
-                    (mkPos (q_sl i) (q_sc i) (q_el d) (q_sc i + String.length (m_name m))) in
+                    (mkPos (q_sl i) (q_sc i) (q_el d) (q_sc i + rune_count (m_name m))) in
     let st1 := if m_has_param_list m then record_params st (m_params m) else st in
     let st2 := update_method_decl st1 f (m_has_param_list m) in
     fold_left body_event (m_events m) st2.
